@@ -8,7 +8,7 @@
 //! trusted: R15 (deep slice): inbound_payment::verify decrypts and authenticates the payment secret (ChaCha20/HMAC, outside the verifier); the unit extracts its two final tests (total_msat against the amount and the expiry against the highest seen block time) verbatim as a function of the decoded (min_amt_msat, expiry); decoding those two numbers from the decrypted bytes is the subject of unit u04d (the real decoding statements against the byte layout) together with the Kani harness h_info_bytes (construct_info_bytes is the inverse of that layout); FinalOnionHopData skeleton
 //! trusted: R15: claim_payment_internal: the unit extracts the amount re-check (the loop over the parts and the two abort tests, conditions captured) verbatim as a function of the part list; begin_claiming_payment before it and the per-channel claims after it are dropped and not claimed; R6: `for htlc in sources.iter()` becomes an index loop
 //! trusted: R15 (deep slice): ClaimablePayments::begin_claiming_payment: the custom-TLV refusal test verbatim (the `.iter().any(|(typ, _)| P)` becomes an index loop carrying P, R6)
-//! assume: representation invariant of an accumulating payment: the intended sum already held is < MAX_VALUE_MSAT, every part's intended value < MAX_VALUE_MSAT, the sum of received values fits u64; timer_ticks < 255; cltv_expiry >= HTLC_FAIL_BACK_BUFFER (implied by acceptance)
+//! assume: representation invariant of an accumulating payment: the intended sum already held is < MAX_VALUE_MSAT, every part's intended value < MAX_VALUE_MSAT, the sum of received values fits u64; cltv_expiry >= HTLC_FAIL_BACK_BUFFER (implied by acceptance)
 //! trusted: assume_specification for core::cmp::max / core::cmp::min (std definitions): present in every unit so that a change that introduces them is verified instead of being rejected by the tool
 use vstd::prelude::*;
 verus! {
@@ -223,8 +223,7 @@ impl ChannelManager {
             total_intended_recvd_value == intended_sum(old(htlcs)@.take(__i as int)),
             forall|k: int| 0 <= k < htlcs@.len() ==> (#[trigger] htlcs@[k]).sender_intended_value == old(htlcs)@[k].sender_intended_value,
             forall|k: int| __i <= k < htlcs@.len() ==> htlcs@[k] == old(htlcs)@[k],
-            forall|k: int| 0 <= k < old(htlcs)@.len() ==> (#[trigger] old(htlcs)@[k]).timer_ticks < 255,
-            forall|k: int| 0 <= k < __i ==> (#[trigger] htlcs@[k]).timer_ticks == old(htlcs)@[k].timer_ticks + 1,
+            forall|k: int| 0 <= k < __i ==> (#[trigger] htlcs@[k]).timer_ticks as int == (if old(htlcs)@[k].timer_ticks == 255 { 255int } else { old(htlcs)@[k].timer_ticks + 1 }),
             timed_out <==> exists|k: int| 0 <= k < __i && (#[trigger] old(htlcs)@[k]).timer_ticks + 1 >= MPP_TIMEOUT_TICKS,
         decreases htlcs.len() - __i
     {
@@ -237,7 +236,6 @@ impl ChannelManager {
 //@ret r
 //@requires
     intended_sum(old(htlcs)@) < MAX_VALUE_MSAT,
-    forall|k: int| 0 <= k < old(htlcs)@.len() ==> (#[trigger] old(htlcs)@[k]).timer_ticks < 255,
 //@ensures P C04 timeout-never-fires-for-a-payment-the-completion-condition-declared-complete
     intended_sum(old(htlcs)@) >= onion_fields.total_mpp_amount_msat ==> !r,
     r <==> (intended_sum(old(htlcs)@) < onion_fields.total_mpp_amount_msat
